@@ -90,9 +90,12 @@ func (e *ServiceIntentionsConfigEntry) UpdateSourceByLegacyID(legacyID string, u
 	return false
 }
 
+// UpsertSourceByName replaces or appends the source with the given local
+// service name. Sources that name a peer or a sameness group are distinct
+// intentions even when the service name is the same, and are left alone.
 func (e *ServiceIntentionsConfigEntry) UpsertSourceByName(sn ServiceName, upsert *SourceIntention) {
 	for i, src := range e.Sources {
-		if src.SourceServiceName() == sn {
+		if src.Peer == "" && src.SamenessGroup == "" && src.SourceServiceName() == sn {
 			e.Sources[i] = upsert
 			return
 		}
@@ -119,7 +122,7 @@ func (e *ServiceIntentionsConfigEntry) DeleteSourceByLegacyID(legacyID string) b
 
 func (e *ServiceIntentionsConfigEntry) DeleteSourceByName(sn ServiceName) bool {
 	for i, src := range e.Sources {
-		if src.SourceServiceName() == sn {
+		if src.Peer == "" && src.SamenessGroup == "" && src.SourceServiceName() == sn {
 			// Delete slice element: https://github.com/golang/go/wiki/SliceTricks#delete
 			//    a = append(a[:i], a[i+1:]...)
 			e.Sources = append(e.Sources[:i], e.Sources[i+1:]...)
